@@ -319,50 +319,105 @@ func (c *Check) mapRangeInsensitive(fn *ssa.Function, rng *ssa.Range) (bool, str
 		if keyField == "" {
 			return false, "elements appended in map order do not carry the (unique) map key to sort by"
 		}
-		// find sort calls after the loop whose comparator compares keyField with <
-		var sorts []ssa.Instruction
-		for _, call := range callsIn(fn, false) {
-			full := calleeFull(call)
-			if !(full == "sort.Slice" || full == "sort.SliceStable") || !(exit == call.Block() || blockReaches(exit, call.Block())) {
-				continue
+		if ok, why := c.sortedBeforeUse(fn, ap.call, exit.Instrs[0], body, keyField, 0); !ok {
+			return false, why
+		}
+	}
+	return true, ""
+}
+
+// sortedBeforeUse: every use of the data derived from src that comes after `first` in fn passes a sort.Slice whose
+// comparator orders by keyField. When fn is a transparent helper (see transparent.go) that returns the data, the
+// obligation continues at its call site.
+func (c *Check) sortedBeforeUse(fn *ssa.Function, src ssa.Value, first ssa.Instruction, body map[*ssa.BasicBlock]bool, keyField string, depth int) (bool, string) {
+	exit := first.Block()
+	var sorts []ssa.Instruction
+	for _, call := range callsIn(fn, false) {
+		if call.Parent() != fn {
+			continue
+		}
+		full := calleeFull(call)
+		if !(full == "sort.Slice" || full == "sort.SliceStable") || !(exit == call.Block() || blockReaches(exit, call.Block())) {
+			continue
+		}
+		if mc, ok := call.Common().Args[1].(*ssa.MakeClosure); ok {
+			cmp := mc.Fn.(*ssa.Function)
+			okCmp := false
+			eachInstr(cmp, func(i ssa.Instruction) {
+				if b, ok := i.(*ssa.BinOp); ok && (b.Op == token.LSS || b.Op == token.GTR) && strings.HasSuffix(Sym(b.X), "."+keyField) && strings.HasSuffix(Sym(b.Y), "."+keyField) {
+					okCmp = true
+				}
+			})
+			if okCmp {
+				sorts = append(sorts, call)
 			}
-			if mc, ok := call.Common().Args[1].(*ssa.MakeClosure); ok {
-				cmp := mc.Fn.(*ssa.Function)
-				okCmp := false
-				eachInstr(cmp, func(i ssa.Instruction) {
-					if b, ok := i.(*ssa.BinOp); ok && (b.Op == token.LSS || b.Op == token.GTR) && strings.HasSuffix(Sym(b.X), "."+keyField) && strings.HasSuffix(Sym(b.Y), "."+keyField) {
-						okCmp = true
+		}
+	}
+	isSort := func(in ssa.Instruction) bool {
+		for _, s := range sorts {
+			if s == in {
+				return true
+			}
+		}
+		return false
+	}
+	site := transparentSite(fn)
+	for _, use := range taintedUses(fn, src) {
+		if body[use.Block()] || isSort(use) {
+			continue
+		}
+		if !(use.Block() == exit || blockReaches(exit, use.Block())) {
+			continue
+		}
+		if use == first || isSort(first) || mustPassFrom(fn, first, use, isSort) {
+			continue
+		}
+		// handed back unsorted by a transparent helper: the caller must sort it before use
+		if ret, isRet := use.(*ssa.Return); isRet && site != nil && depth < 3 {
+			sc := site.(*ssa.Call)
+			okAll := true
+			why := ""
+			for k, r := range ret.Results {
+				if _, isSl := r.Type().Underlying().(*types.Slice); !isSl {
+					continue
+				}
+				var srcs []ssa.Value
+				if len(ret.Results) == 1 {
+					srcs = append(srcs, sc)
+				} else {
+					for _, rr := range *sc.Referrers() {
+						if ex, isEx := rr.(*ssa.Extract); isEx && ex.Index == k {
+							srcs = append(srcs, ex)
+						}
 					}
-				})
-				if okCmp {
-					sorts = append(sorts, call)
+				}
+				for _, sv := range srcs {
+					// first instruction after the call
+					var after ssa.Instruction
+					blk := sc.Block()
+					for idx, in := range blk.Instrs {
+						if in == ssa.Instruction(sc) && idx+1 < len(blk.Instrs) {
+							after = blk.Instrs[idx+1]
+						}
+					}
+					if after == nil {
+						okAll, why = false, "call site of "+fn.Name()+" not understood"
+						continue
+					}
+					if ok2, why2 := c.sortedBeforeUse(sc.Parent(), sv, after, map[*ssa.BasicBlock]bool{}, keyField, depth+1); !ok2 {
+						okAll, why = false, why2
+					}
 				}
 			}
+			if okAll {
+				continue
+			}
+			return false, why
 		}
 		if len(sorts) == 0 {
 			return false, "slice filled in map order is never sorted by " + keyField + " afterwards"
 		}
-		isSort := func(in ssa.Instruction) bool {
-			for _, s := range sorts {
-				if s == in {
-					return true
-				}
-			}
-			return false
-		}
-		// every use of the collected data after the loop (a call receiving it, or returning it) passes a sort first
-		first := exit.Instrs[0]
-		for _, use := range taintedUses(fn, ap.call) {
-			if body[use.Block()] || isSort(use) {
-				continue
-			}
-			if !(use.Block() == exit || blockReaches(exit, use.Block())) {
-				continue
-			}
-			if use != first && !isSort(first) && !mustPassFrom(fn, first, use, isSort) {
-				return false, "data collected in map order reaches " + c.L.Pos(use.Pos()) + " without being sorted on some path"
-			}
-		}
+		return false, "data collected in map order reaches " + c.L.Pos(use.Pos()) + " without being sorted on some path"
 	}
 	return true, ""
 }
